@@ -2,6 +2,7 @@ import NxProofs.NexStreams
 import NxProofs.NexCommon
 import NxProofs.NexErrors
 import NxProofs.NexDateTime
+import NxProofs.C15Zone
 import NxProofs.NexStationURL
 import NxProofs.NexObjWalk
 import NxProofs.NexHolderPoly
@@ -230,6 +231,45 @@ example : yearOk (1596279690 + 20700 + (epochZ * 86400 : Nat)) = true ∧ yearOk
     yearOk (1596279690 + 20700 + (epochZ * 86400 : Nat) + 20700) = true := by decide
 open DateTime in
 example : fromTimestamp 0 1596279690 = .ok (make ⟨2020, 8, 1, 11, 1, 30⟩) := by decide
+
+/-! ### time zones whose rules changed over the years
+
+   The zone is ANY function instant → UTC offset; `timestamp()` is CPython's `local_to_seconds` (the routine behind
+   `timestamp()` of a naive datetime, `NxModel/Nex/C15Zone.lean`), which probes the zone at up to five instants.
+   Full statement wanted by the property: every instant whose civil time occurs once round-trips, in every zone.
+   Proved: the same for every zone that shows at most ONE rule change within three days of the instant (between any two
+   offsets within a day of UTC: DST starting / ending / abolished, a moved standard offset, a date-line jump), local year
+   1..9999 minus the first day. NOT proved: two rule changes less than three days apart (no zone of the tz database has
+   that after 1970); range errors at the far edge of year 9999 are not modelled here (known finding of the fixed zones). -/
+open DateTime Zone in
+theorem datetime_unix_zone_history (z : Zone) (T a b t : Int)
+    (ha : -86400 ≤ a ∧ a ≤ 86400) (hb : -86400 ≤ b ∧ b ≤ 86400)
+    (hz : ∀ x, t - 259200 ≤ x → x ≤ t + 259200 → z x = zTwo T a b x)
+    (once : ∀ t', t' + z t' = t + z t → t' = t)
+    (h1 : yearOk (t + z t + E) = true) (h2 : yearOk (t + z t + E - 86400) = true) :
+    ∃ v, fromTimestampZ z t = .ok v ∧ timestampZ z v = .ok t :=
+  timestampZ_fromTimestampZ z T a b t ha hb hz once h1 h2
+
+open Zone in
+/-- `local_to_seconds` itself, one rule change between ANY two offsets: it inverts `local` wherever the civil time occurs once -/
+theorem local_to_seconds_inverts_local (T a b u : Int)
+    (once : ∀ u', localOf (zTwo T a b) u' = localOf (zTwo T a b) u → u' = u) :
+    localToSeconds (zTwo T a b) (localOf (zTwo T a b) u) = u :=
+  localToSeconds_two T a b u once
+
+/- the hypotheses at a non-trivial point: America/Mexico_City, one second after DST began on 1996-04-07 (02:00 CST -> 03:00 CDT) -/
+open Zone in
+example : ∀ t', t' + zTwo 828864000 (-21600) (-18000) t' = 828864001 + zTwo 828864000 (-21600) (-18000) 828864001 → t' = 828864001 := by
+  intro t' h; simp only [zTwo] at h; split at h <;> simp at h <;> omega
+open DateTime Zone in
+example : fromTimestampZ (zTab (-21600) [(828864000, -18000), (846399600, -21600)]) 828864001 = .ok (make ⟨1996, 4, 7, 3, 0, 1⟩) := by decide
+open DateTime Zone in
+example : timestampZ (zTab (-21600) [(828864000, -18000), (846399600, -21600)]) (make ⟨1996, 4, 7, 3, 0, 1⟩) = .ok 828864001 := by decide
+/- a skipped local time (02:30 that night) goes to the later instant, a repeated one (01:30 on 1996-10-27) to its first occurrence -/
+open DateTime Zone in
+example : timestampZ (zTab (-21600) [(828864000, -18000), (846399600, -21600)]) (make ⟨1996, 4, 7, 2, 30, 0⟩) = .ok 828865800 := by decide
+open DateTime Zone in
+example : timestampZ (zTab (-21600) [(828864000, -18000), (846399600, -21600)]) (make ⟨1996, 10, 27, 1, 30, 0⟩) = .ok 846397800 := by decide
 
 /-! ## StationURL: text form -/
 
